@@ -12,6 +12,7 @@ import (
 
 	"github.com/cnotch/ipchub/provider/route"
 	"github.com/cnotch/ipchub/utils"
+	"github.com/cnotch/ipchub/utils/verifhook"
 	"github.com/cnotch/scheduler"
 	"github.com/cnotch/xlog"
 )
@@ -45,6 +46,7 @@ func Regist(s *Stream) {
 	if s == oldSI { // 如果是同一个源
 		return
 	}
+	verifhook.Point("regist.loaded", 0)
 
 	// 设置新流
 	streams.Store(s.path, s)
@@ -66,6 +68,7 @@ func Unregist(s *Stream) {
 	if ok {
 		s2 := si.(*Stream)
 		if s2 == s {
+			verifhook.Point("unregist.loaded", 0)
 			streams.Delete(s.path)
 		}
 	}
@@ -99,6 +102,7 @@ func GetOrCreate(path string) *Stream {
 		return s
 	}
 
+	verifhook.Point("getorcreate.miss", 0)
 	// 检查路由
 	path = utils.CanonicalPath(path)
 	r := route.Match(path)
@@ -174,6 +178,7 @@ func runZeroConsumersCloseTask(s *Stream, closedStatus int32) {
 		d:           time.Minute * 5,
 		closedStats: closedStatus,
 	}
+	verifTaskPosted(timing)
 	scheduler.PostFunc(timing, timing.run,
 		fmt.Sprintf("%s: The close task when the stream exceeds a certain amount of time without a consumer.", s.path))
 }
